@@ -12,7 +12,7 @@ COL_WIDTH = 6.25  # default portrait col_width (8.5 - 2.25)
 def make_table(heights, groups=None, *, ndata=2, fonts=None, sizes=None, subline=None, page_by_levels=0,
                new_page=False, pageby_row=None, pageby_header=None, header="explicit", footnote=None, source=None,
                nrow=10, placements=None, tall_cols=None, title=False, group_first=True, rel_widths=None, shared=None,
-               reverse_group_cols=False, size_pattern=None):
+               reverse_group_cols=False, size_pattern=None, null_cells=None):
     """Deterministic builder.
     heights: list of target line counts per row.
     groups: list (one per page_by level) of per-row values; subline: per-row values or None.
@@ -54,7 +54,9 @@ def make_table(heights, groups=None, *, ndata=2, fonts=None, sizes=None, subline
                 sizes = list(sizes)
                 sizes[j] = row_size
             sh = shared.get(f"{i},{j}") if shared else None
-            if sh is not None and j > 0:
+            if null_cells and f"{i},{j}" in null_cells and j != tall and ndata >= 2:
+                t = None          # a missing value: rendered as an empty cell, one line
+            elif sh is not None and j > 0:
                 t = sh            # the same long text reused in several cells (no coordinate tag)
                 hk = max(hk, metrics.lines_lower_bound(t, fonts[j], sizes[j], cws[j]))
             elif j == tall and k > 1:
@@ -185,7 +187,7 @@ def nested_groups(draw, n, levels, capacity, dividers=False, nulls=False, restar
 def pag_recipe(draw, *, fonts=False, strategies=("plain", "page_by", "page_by_new", "subline"), max_rows=40, nrow_range=(2, 30),
                max_height=6, headers=("explicit", "default", "multi", "none"), levels_max=1, dividers=False,
                subline_with_page_by=False, pageby_rows=("column",), fn_src=True, placements=True, nulls=False,
-               widths=False):
+               widths=False, tall_headings=False):
     strat = draw(st.sampled_from(strategies))
     ndata = draw(st.integers(1, 3))
     levels = 0
@@ -214,6 +216,16 @@ def pag_recipe(draw, *, fonts=False, strategies=("plain", "page_by", "page_by_ne
         if draw(st.integers(0, 9)) < 3:
             s = [9] * ndata
     groups = draw(nested_groups(n, levels, capacity, dividers=dividers, nulls=nulls)) if levels else None
+    if tall_headings and levels and draw(st.integers(0, 9)) < 5:
+        # some group values are long enough to wrap to 2-3 lines when set across the whole table width
+        for lvl in range(levels):
+            longer = {}
+            for v in dict.fromkeys(groups[lvl]):
+                if isinstance(v, str) and v != "-----" and draw(st.integers(0, 9)) < 4:
+                    t = metrics.filler(draw(st.integers(2, 3)), COL_WIDTH, 1, 9, prefix=v)
+                    if t is not None:
+                        longer[v] = t
+            groups[lvl] = [longer.get(v, v) for v in groups[lvl]]
     rel = shared = None
     size_pattern = None
     if fonts and n >= 3 and draw(st.integers(0, 9)) < 3:
